@@ -361,7 +361,8 @@ fn check_dynamic(initial: &[f64], best: &[f64], new: &[f64], ratio: f64, tick_us
 }
 
 fn run_dynamic(ctx: &RunCtx, report: &mut Report) {
-    let scalars: Vec<f64> = vec![-1e308, -1., -0.0, 0., 1e-300, 0.5, 1., 2., 1e308];
+    // incl. subnormal values: a reciprocal of them is not finite
+    let scalars: Vec<f64> = vec![-1e308, -1., -0.0, 0., 3e-320, 1e-310, 4e-310, 1e-300, 0.5, 1., 2., 1e308];
     let ratios = [0., 0.1, 0.2];
     let ticks = [100u64, 1000, 7000];
     // single objective: every triple
